@@ -1,5 +1,6 @@
 import Mdsort.Proofs.Interp
 import Mdsort.Proofs.Captures
+import Mdsort.Proofs.MainTextMacros
 
 /-!
 # C12 - interpolation is exact and single-pass: message content is data, never template
@@ -227,6 +228,142 @@ example :
         ((getAttachments (parseMessage [83, 117, 98, 106, 101, 99, 116, 58, 32, 120, 10, 10, 98, 10])).getD []))).isNone
       = true := by
   simp only [eval]
+  decide +kernel
+
+/-! ## C12_macros - parse-time macro expansion (mdsort.conf(5), MACROS)
+
+`expandMacros` (Model/Conf.lean) transcribes `expandmacros` of parse.y, the macro table `macrosInsert` /
+`macrosUse` transcribes macro.c; both are part of the parser model that is compared with the real parser
+(C14).  `Spec.mexpand` (Spec/Macro.lean) is the documented reading: one left-to-right pass into tokens
+(`${name}` up to the first `}`, an unterminated `${`, or one byte), each token replaced on its own, the
+results concatenated. -/
+
+/-- For EVERY string, context (`action`: the string belongs to `move`, `label`, `exec`, or is the value of
+`add-header`) and macro table, the loop of `expandmacros` yields exactly the token-wise substitution: each
+`${name}` is replaced by the value the table holds for `name`, `${path}` stays in place in an action
+context (it is replaced when the action runs) and is an error elsewhere, an undefined name and an
+unterminated `${` are errors - and nothing that was substituted is read again (the result is the
+concatenation).  Expanding only counts references: no name changes its value. -/
+theorem C12_macros (action : Bool) (ms : List Macro) (s : Bytes) :
+    (expandMacros action (s.length + 1) s ms []).map (·.1) = Spec.mexpand action (Spec.macroValue ms) s ∧
+    (∀ out ms', expandMacros action (s.length + 1) s ms [] = some (out, ms') → Spec.macroValue ms' = Spec.macroValue ms) :=
+  Proofs.MainText.mt_expandMacros_value action ms s
+
+/-- (a)-(d) What the specification says about `pre ${name} post` (`pre` without `$`, `name` without `}`):
+`pre`, then the value of `name` VERBATIM - whatever bytes it holds, `${other}` included, it is not expanded
+again - or `${path}` itself in an action context, then the expansion of `post`; an error when `name` is
+`path` outside an action, when `name` has no value, or when `post` is an error. -/
+theorem C12_macros_reference (action : Bool) (value : Bytes → Option Bytes) (pre name post : Bytes)
+    (hpre : (36 : UInt8) ∉ pre) (hname : (125 : UInt8) ∉ name) :
+    Spec.mexpand action value (pre ++ 36 :: 123 :: (name ++ 125 :: post)) =
+      match (if name = Spec.pathName then (if action then some Spec.pathRef else none) else value name),
+            Spec.mexpand action value post with
+      | some v, some rest => some (pre ++ v ++ rest)
+      | _, _ => none :=
+  Proofs.MainText.mt_mexpand_ref action value pre name post hpre hname
+
+/-- (d) An unterminated `${` is an error, in every context. -/
+theorem C12_macros_unterminated (action : Bool) (value : Bytes → Option Bytes) (pre tail : Bytes)
+    (hpre : (36 : UInt8) ∉ pre) (htail : (125 : UInt8) ∉ tail) :
+    Spec.mexpand action value (pre ++ 36 :: 123 :: tail) = none :=
+  Proofs.MainText.mt_mexpand_unterminated action value pre tail hpre htail
+
+/-- (e) A string without `$` is its own expansion, in every context and with every table (which it
+leaves as it is). -/
+theorem C12_macros_plain (action : Bool) (ms : List Macro) (s : Bytes) (h : (36 : UInt8) ∉ s) :
+    Spec.mexpand action (Spec.macroValue ms) s = some s ∧ expandMacros action (s.length + 1) s ms [] = some (s, ms) :=
+  ⟨Proofs.MainText.mt_mexpand_plain action _ s h, Proofs.MainText.mt_expandMacros_plain action ms s h⟩
+
+/-- (a) Where the values come from (`macros_insert`).  A definition `name = "v"` in the file of a name the
+table does not hold gives `${name}` the value `v` and changes no other name.  When the name was given with
+`-D` (the entry is sticky and not yet shadowed) the definition in the file is accepted and DROPPED: every
+name, this one included, keeps its value - the command line wins.  A further definition of a name that is
+not such a fresh `-D` entry (a second one in the file, a second `-D`) is refused. -/
+theorem C12_macro_definitions (ms : List Macro) (name v : Bytes) (lno : Nat) :
+    (∀ sticky, isPathMacro name = false → Spec.macroValue ms name = none →
+      ∃ ms', macrosInsert ms name v lno sticky = some ms' ∧ Spec.macroValue ms' name = some v ∧
+        ∀ n, n ≠ name → Spec.macroValue ms' n = Spec.macroValue ms n) ∧
+    (∀ m, ms.find? (fun x => x.name == name) = some m → m.sticky = true → m.defs = 0 → isPathMacro name = false →
+      ∃ ms', macrosInsert ms name v lno false = some ms' ∧ Spec.macroValue ms' = Spec.macroValue ms) ∧
+    (∀ sticky, (ms.any fun x => x.name == name) = true →
+      (∀ x ∈ ms, x.name = name → x.sticky = false ∨ sticky = true ∨ x.defs ≠ 0) →
+      macrosInsert ms name v lno sticky = none) :=
+  ⟨fun sticky hp hn => Proofs.MainText.mt_insert_new ms name v lno sticky hp hn,
+   fun m hf hs hd hp => Proofs.MainText.mt_insert_sticky ms name v lno m hf hs hd hp,
+   fun sticky hex hno => Proofs.MainText.mt_insert_twice ms name v lno sticky hex hno⟩
+
+/-! Non-vacuity and witnesses, on whole configuration files through `parseConfig` (the strings of the
+accepted trees are read with `mt_strings`: per block the maildir paths and the strings of its rules). -/
+
+open Proofs.MainText in
+/-- `-D a=D` wins over `a = "1"` in the file (sticky override); without `-D` the file's value is used. -/
+example :
+    mt_strings (parseConfig [] [([97], [68])] (fun _ => true)
+      "a = \"1\"\nmaildir \"q\" { match all move \"${a}\" }".toUTF8.toList) = some [(["q".toUTF8.toList], ["D".toUTF8.toList])] ∧
+    mt_strings (parseConfig [] [] (fun _ => true)
+      "a = \"1\"\nmaildir \"q\" { match all move \"${a}\" }".toUTF8.toList) = some [(["q".toUTF8.toList], ["1".toUTF8.toList])] := by
+  decide +kernel
+
+open Proofs.MainText in
+/-- (b) Single pass: a value that spells a macro reference is not expanded again - neither a value built
+in the file from two macros (`d` = `${c}`), nor a `-D` value (`a` = `${b}`). -/
+example :
+    mt_strings (parseConfig [] [] (fun _ => true)
+      "a = \"$\"\nb = \"{c}\"\nc = \"x\"\nd = \"${a}${b}\"\nmaildir \"${c}\" { match all label \"${d}\" }".toUTF8.toList) =
+        some [(["x".toUTF8.toList], ["${c}".toUTF8.toList])] ∧
+    mt_strings (parseConfig [] [([97], "${b}".toUTF8.toList)] (fun _ => true)
+      "b = \"x\"\nmaildir \"${b}\" { match all label \"${a}\" }".toUTF8.toList) =
+        some [(["x".toUTF8.toList], ["${b}".toUTF8.toList])] := by
+  decide +kernel
+
+open Proofs.MainText in
+/-- (c) `${path}` is left in place in the action contexts - `move`, `label`, `exec`, the value of
+`add-header` - and rejects the file everywhere else: maildir path, header name, `isdirectory`, `command`,
+`flags`, the name of `add-header`, the value of a macro. -/
+example :
+    mt_strings (parseConfig [] [] (fun _ => true)
+      "maildir \"q\" { match all move \"${path}\" label \"a${path}\" exec \"${path}b\" add-header \"k\" \"${path}\" }".toUTF8.toList) =
+        some [(["q".toUTF8.toList], ["${path}".toUTF8.toList, "a${path}".toUTF8.toList, "${path}b".toUTF8.toList,
+                                     "k".toUTF8.toList, "${path}".toUTF8.toList])] ∧
+    mt_isError (parseConfig [] [] (fun _ => true) "maildir \"${path}\" { match all break }".toUTF8.toList) = true ∧
+    mt_isError (parseConfig [] [] (fun _ => true) "maildir \"q\" { match header \"${path}\" /x/ break }".toUTF8.toList) = true ∧
+    mt_isError (parseConfig [] [] (fun _ => true) "maildir \"q\" { match isdirectory \"${path}\" break }".toUTF8.toList) = true ∧
+    mt_isError (parseConfig [] [] (fun _ => true) "maildir \"q\" { match command \"${path}\" break }".toUTF8.toList) = true ∧
+    mt_isError (parseConfig [] [] (fun _ => true) "maildir \"q\" { match all flags \"${path}\" }".toUTF8.toList) = true ∧
+    mt_isError (parseConfig [] [] (fun _ => true) "maildir \"q\" { match all add-header \"${path}\" \"v\" }".toUTF8.toList) = true ∧
+    mt_isError (parseConfig [] [] (fun _ => true) "a = \"${path}\"\nmaildir \"${a}\" { match all break }".toUTF8.toList) = true := by
+  decide +kernel
+
+open Proofs.MainText in
+/-- (d) An unknown macro and an unterminated `${` reject the file; `-D path=x` and the same `-D` twice are
+refused before the file is read. -/
+example :
+    mt_isError (parseConfig [] [] (fun _ => true) "maildir \"q\" { match all move \"${nosuch}\" }".toUTF8.toList) = true ∧
+    mt_isError (parseConfig [] [] (fun _ => true) "maildir \"q\" { match all move \"x${\" }".toUTF8.toList) = true ∧
+    mt_isInvalidDefs (parseConfig [] [("path".toUTF8.toList, [120])] (fun _ => true) "maildir \"q\" { match all break }".toUTF8.toList) = true ∧
+    mt_isInvalidDefs (parseConfig [] [([97], [49]), ([97], [50])] (fun _ => true) "maildir \"q\" { match all move \"${a}\" }".toUTF8.toList) = true := by
+  decide +kernel
+
+open Proofs.MainText in
+/-- The observation recorded in DESIGN.md (C12): values are substituted at parse time and the RESULT takes
+part in the action-time pass.  With `a = "$"` and `b = "{path}"` the string `${a}${b}` of a `move` becomes
+`${path}` while parsing (not expanded again then: single pass) - and that string is what `interpolate`
+reads when the action runs, where `${path}` is the path of the message. -/
+theorem C12_macros_value_reaches_action_pass (before : MatchList) (p : Bytes) :
+    mt_strings (parseConfig [] [] (fun _ => true)
+      "a = \"$\"\nb = \"{path}\"\nmaildir \"q\" { match all move \"${a}${b}\" }".toUTF8.toList) =
+        some [(["q".toUTF8.toList], ["${path}".toUTF8.toList])] ∧
+    interpolate before (some [(Spec.pathName, p)]) Spec.pathRef = some p :=
+  ⟨by decide +kernel, Proofs.MainText.mt_interpolate_path before p⟩
+
+/-- Hypotheses of `C12_macros_reference` / `C12_macro_definitions` on concrete data: the string
+`x/${dir}/y` with `dir` = `${z}` (not read again) and with `dir` = `path` in an action context. -/
+example :
+    Spec.mexpand false (Spec.macroValue [{ name := [100], value := "${z}".toUTF8.toList }]) "x/${d}/y".toUTF8.toList =
+      some "x/${z}/y".toUTF8.toList ∧
+    Spec.mexpand true (fun _ => none) "x/${path}/y".toUTF8.toList = some "x/${path}/y".toUTF8.toList ∧
+    Spec.mexpand false (fun _ => none) "x/${path}/y".toUTF8.toList = none ∧
+    Spec.macroValue [{ name := [100], value := [49], sticky := true }] [100] = some [49] := by
   decide +kernel
 
 end Mdsort.Props
